@@ -362,6 +362,8 @@ def enum_cases(cfgs, wd):
 
 # --------------------------------------------------------------------------- case sources
 ALPHA_TYPES = [6, 32802, 32512, 65280, 8, 28, 32808, 36]
+# wire type of each letter of MCStunMessage!Alphabet (only used to choose policing sets)
+LETTER_TYPES = [6, 6, 32802, 32802, 32512, 65280, 8, 8, 28, 28, 28, 32808, 32808, 32808, 32808, 36, 32802, 65280, 6]
 
 
 def gen_messages(n, seed, wd, maxattrs=5, tag="gen"):
@@ -526,7 +528,7 @@ def c16(rep, tier, seed, wd):
     gm = [g for g in gen_messages(600 if tier == "quick" else 5000, seed + 3, wd, maxattrs=5) if g["gen"]["class"] == "request"]
     gcs = [{"bytes": g["bytes"], "src": "generated request %d" % g["id"], "types": [a["d"]["t"] for a in g["gen"]["attrs"]]} for g in gm]
     for c in cases:
-        c["types"] = [[6, 6, 32802, 32802, 32512, 65280, 8, 8, 28, 28, 28, 32808, 32808, 32808, 32808, 36][x - 1] for x in c["as"]]
+        c["types"] = [LETTER_TYPES[x - 1] for x in c["as"]]
     allc = cases + gcs
     for c in allc:
         c["police"] = police_sets(c["types"], rng, 6 if tier == "quick" else 20)
@@ -1162,9 +1164,8 @@ def c01(rep, tier, seed, wd):
     rng = random.Random(seed)
     cfgs = ["bodies2", "tails4", "headers"] if tier == "quick" else ["bodies", "tails5", "headers"]
     cases, st, tr = enum_cases(cfgs, wd)
-    letter_types = [6, 6, 32802, 32802, 32512, 65280, 8, 8, 28, 28, 28, 32808, 32808, 32808, 32808, 36, 32802, 65280, 6]
     for c in cases:
-        c["types"] = [letter_types[x - 1] for x in c["as"]]
+        c["types"] = [LETTER_TYPES[x - 1] for x in c["as"]]
     gm = gen_messages(300 if tier == "quick" else 5000, seed + 8, wd, maxattrs=5)
     gcs = [{"bytes": g["bytes"], "creds": g["creds"], "src": "generated message %d" % g["id"], "types": [a["d"]["t"] for a in g["gen"]["attrs"]]} for g in gm]
     muts = []
